@@ -2063,6 +2063,60 @@ def make_dep(rng, idx):
     return {'ns': ns, 'version': '1.0', 'gir': text, 'names': g.describe()['names'], 'cover': g.cover}
 
 
+def make_tail_case(rng, idx):
+    """a small namespace (no directory index section, no attributes) whose LAST entry is a container ending in a
+    function without parameters: the out-of-line type blob of its return value is then the very last thing in the
+    file -- the place where a reader or validator that assumes more bytes than the blob has runs off the end"""
+    ns = 'Tail%d' % idx
+    cover = {}
+    top = []
+    for i in range(rng.choice([1, 1, 1, 1, 0, 2, 3, 4])):      # two entries: the perfect hash (directory index) is not built
+        k = rng.choice(['record', 'enum', 'constant', 'function'])
+        if k == 'record':
+            top.append(E('record', [('name', 'R%d' % i), ('c:type', '%sR%d' % (ns, i))]))
+        elif k == 'enum':
+            top.append(E('enumeration', [('name', 'E%d' % i), ('c:type', '%sE%d' % (ns, i))],
+                         [E('member', [('name', 'a'), ('value', '0'), ('c:identifier', 'A%d' % i)])]))
+        elif k == 'constant':
+            top.append(E('constant', [('name', 'K%d' % i), ('value', '1')], [E('type', [('name', 'gint32')])]))
+        else:
+            top.append(E('function', [('name', 'f%d' % i), ('c:identifier', 'tail_f%d' % i)],
+                         [E('return-value', [('transfer-ownership', 'none')], [E('type', [('name', 'none')])])]))
+    kind = rng.choice(['boxed', 'boxed', 'record', 'union', 'class', 'interface'])
+    name = 'Last'
+    cname = ns + name
+    gt = [('glib:type-name', cname), ('glib:get-type', 'tail_last_get_type')]
+    last = {'boxed': E('glib:boxed', [('glib:name', name)] + gt),
+            'record': E('record', [('name', name), ('c:type', cname)] + (gt if rng.random() < 0.5 else [])),
+            'union': E('union', [('name', name), ('c:type', cname)]),
+            'class': E('class', [('name', name)] + gt),
+            'interface': E('interface', [('name', name)] + gt)}[kind]
+
+    def fn(tag, fname, ret):
+        f = E(tag, [('name', fname), ('c:identifier', 'tail_last_%s' % fname)])
+        f.add(E('return-value', [('transfer-ownership', rng.choice(['none', 'full']))], [ret]))
+        if tag == 'method':
+            f.add(E('parameters', [], [E('instance-parameter', [('name', 'self'), ('transfer-ownership', 'none')],
+                                         [E('type', [('name', name), ('c:type', cname + '*')])])]))
+        return f
+    self_t = lambda: E('type', [('name', name), ('c:type', cname + '*')])
+    for i in range(rng.choice([0, 0, 1, 2])):
+        last.add(fn('method', 'm%d' % i, E('type', [('name', 'none'), ('c:type', 'void')])))
+    final = rng.choice(['constructor', 'constructor', 'constructor', 'function', 'method'] if kind != 'interface'
+                       else ['function', 'method'])
+    ret = self_t() if final == 'constructor' else rng.choice([
+        self_t(), E('type', [('name', 'GLib.List'), ('c:type', 'GList*')], [E('type', [('name', 'utf8')])]),
+        E('array', [('zero-terminated', '1'), ('c:type', 'gchar**')], [E('type', [('name', 'utf8')])]),
+        E('type', [('name', 'GLib.Error'), ('c:type', 'GError*')])])
+    last.add(fn(final, 'last', ret))
+    top.append(last)
+    cover['tail:%s:%s' % (kind, final)] = 1
+    a = [('name', ns), ('version', '1.0'), ('shared-library', 'libtail.so')]
+    text = render_repository([], E('namespace', a, top))
+    return {'ns': ns, 'version': '1.0', 'gir': text, 'deps': [], 'dep_ids': [], 'shlib_option': None, 'cover': cover,
+            'origin': 'generated'}
+
+
 def make_case(rng, idx, deps, size=None):
     use_dep = rng.random() < 0.7 and deps
     chosen = []
@@ -2615,6 +2669,7 @@ def run(ctx):
                   'cover': d['cover'], 'origin': 'generated'} for d in deps]
     n_cases = ctx.n(150, 1200)
     cases = [make_case(rng, i, deps) for i in range(n_cases)]
+    cases += [make_tail_case(rng, i) for i in range(ctx.n(24, 150))]
     san_runs, san_cases = None, []
     if san_future is not None:
         san_cases = (corpus + dep_cases + cases)[:200]
